@@ -120,7 +120,7 @@ theorem hasKind_str {a : Val} (h : hasKind .str a) : ∃ b, a = .str b := by
 theorem hasKind_typ {a : Val} (h : hasKind .typ a) : ∃ b, a = .typ b := by
   cases a <;> simp [hasKind] at h ⊢
 theorem hasKind_plain {t : Nat} {a : Val} (h : hasKind (.plain t) a) : ∃ b, a = .plain t b := by
-  cases a <;> simp [hasKind] at h ⊢; exact h
+  cases a <;> simp [hasKind] at h ⊢; exact h.1
 theorem hasKind_seq {e : Kind} {a : Val} (h : hasKind (.seq e) a) : ∃ s xs, a = .seq s xs ∧ ∀ x ∈ xs, hasKind e x := by
   cases a with
   | seq s xs => exact ⟨s, xs, rfl, by simpa [hasKind] using h⟩
